@@ -292,6 +292,90 @@ theorem roundtrip_cbc_dtlcp (P : Prims) (L : Laws P) (k : DirKeys) (next : Optio
     rw [List.append_assoc, getD_append_left _ _ _ _ (by simp [List.length_take]; omega), getD_take _ _ _ _ (by omega)]
   simp only [f1, f2, f3, f4, g 0 (by omega), g 1 (by omega), g 2 (by omega), hH, if_false, hmac, beq_self_eq_true, Bool.and_true, if_true]
 
+/-! ### records of an independent sender: the explicit GCM nonce is the sender's choice
 
+The standard's sealing (`Spec.KeySchedule.sealGCM`) with ANY 8-byte explicit nonce — not only the
+copy of the sequence number gotlcp's own `encrypt` writes — is opened by the model's `decrypt`. -/
+
+theorem open_foreign_nonce_tlcp (P : Prims) (L : Laws P) (k : DirKeys) (next : Option Cipher)
+    (typ ver epoch seq : Nat) (e content : Bytes) (he : e.length = 8) (hiv : k.iv.length = 4) :
+    match decrypt P srcTlcp .tlcp ⟨some (.aead k), next, Spec.KeySchedule.seqNum .tlcp epoch seq⟩
+        (Spec.KeySchedule.sealGCM P ⟨k.mac, k.key, k.iv⟩ .tlcp typ ver epoch seq e content) with
+    | .ok (pt, _) => pt = content
+    | .panic => incSeq (Spec.KeySchedule.seqNum .tlcp epoch seq) = none
+    | .alert _ => False := by
+  have hS : srcTlcp.recordHeaderLen = 5 := rfl
+  have hen : explicitNonceLen srcTlcp (some (.aead k)) = 8 := rfl
+  simp only [Spec.KeySchedule.sealGCM, Spec.KeySchedule.header, Spec.KeySchedule.gcmNonce,
+    Spec.KeySchedule.additionalData, Spec.KeySchedule.pseudoHeader, Spec.KeySchedule.seqNum]
+  generalize hct : P.aeadSeal k.key (k.iv ++ e) (be 8 seq ++ be 1 typ ++ be 2 ver ++ be 2 content.length) content = ct
+  have hctl : ct.length = content.length + P.tagLen := by rw [← hct, L.seal_len]
+  have hh : (be 1 typ ++ be 2 ver ++ be 2 (e.length + ct.length)).length = 5 := by simp [length_be]
+  unfold decrypt
+  simp only [hS, hen]
+  have d1 : (be 1 typ ++ be 2 ver ++ be 2 (e.length + ct.length) ++ e ++ ct).drop 5 = e ++ ct := by
+    rw [List.append_assoc, List.drop_append_of_le_length (by omega), List.drop_of_length_le (by omega)]; simp
+  have t3 : (be 1 typ ++ be 2 ver ++ be 2 (e.length + ct.length) ++ e ++ ct).take 3 = be 1 typ ++ be 2 ver := by
+    simp [be]
+  rw [d1, t3]
+  have e1 : (e ++ ct).take 8 = e := by rw [List.take_append_of_le_length (by omega)]; exact List.take_of_length_le (by omega)
+  have e2 : (e ++ ct).drop 8 = ct := by rw [List.drop_append_of_le_length (by omega), List.drop_of_length_le (by omega)]; simp
+  have e3 : ¬ (e ++ ct).length < 8 := by simp; omega
+  have e4 : ¬ ct.length < P.tagLen := by omega
+  have e5 : ct.length - P.tagLen = content.length := by omega
+  have hne : (e.length == 0) = false := by simp [he]
+  have pn : prefixNonce srcTlcp k.iv e = k.iv ++ e := by
+    simp only [prefixNonce]
+    have a : srcTlcp.noncePrefixLen = 4 := rfl
+    have b : srcTlcp.aeadNonceLen = 12 := rfl
+    rw [a, b, List.take_of_length_le (by omega), List.take_of_length_le (by omega)]
+  simp only [e1, e2, e3, e4, e5, if_false, hne, Bool.false_eq_true, pn, len16_eq]
+  rw [← hct, ← List.append_assoc (be 8 seq), L.open_seal]
+  cases hi : incSeq (be 8 seq) <;> simp
+
+theorem open_foreign_nonce_dtlcp (P : Prims) (L : Laws P) (k : DirKeys) (next : Option Cipher)
+    (typ ver epoch seq : Nat) (e content : Bytes) (he : e.length = 8) (hiv : k.iv.length = 4) :
+    match decrypt P srcDtlcp .dtlcp ⟨some (.aead k), next, Spec.KeySchedule.seqNum .dtlcp epoch seq⟩
+        (Spec.KeySchedule.sealGCM P ⟨k.mac, k.key, k.iv⟩ .dtlcp typ ver epoch seq e content) with
+    | .ok (pt, _) => pt = content
+    | .panic => False
+    | .alert _ => False := by
+  have hS : srcDtlcp.recordHeaderLen = 13 := rfl
+  have hen : explicitNonceLen srcDtlcp (some (.aead k)) = 8 := rfl
+  simp only [Spec.KeySchedule.sealGCM, Spec.KeySchedule.header, Spec.KeySchedule.gcmNonce,
+    Spec.KeySchedule.additionalData, Spec.KeySchedule.pseudoHeader, Spec.KeySchedule.seqNum]
+  generalize hct : P.aeadSeal k.key (k.iv ++ e) (be 2 epoch ++ be 6 seq ++ be 1 typ ++ be 2 ver ++ be 2 content.length) content = ct
+  have hctl : ct.length = content.length + P.tagLen := by rw [← hct, L.seal_len]
+  generalize hsq : be 2 epoch ++ be 6 seq = sq at *
+  have hsql : sq.length = 8 := by rw [← hsq]; simp [length_be]
+  have hb : be 1 typ ++ be 2 ver = [UInt8.ofNat typ, UInt8.ofNat (ver / 256), UInt8.ofNat ver] := by simp [be]
+  have hrec : be 1 typ ++ be 2 ver ++ be 2 epoch ++ be 6 seq ++ be 2 (e.length + ct.length) ++ e ++ ct
+      = [UInt8.ofNat typ, UInt8.ofNat (ver / 256), UInt8.ofNat ver] ++ (sq ++ be 2 (e.length + ct.length)) ++ (e ++ ct) := by
+    rw [hb, ← hsq]; simp
+  rw [hrec]
+  unfold decrypt
+  simp only [hS, hen]
+  have d1 : ([UInt8.ofNat typ, UInt8.ofNat (ver / 256), UInt8.ofNat ver] ++ (sq ++ be 2 (e.length + ct.length)) ++ (e ++ ct)).drop 13 = e ++ ct := by
+    rw [List.drop_append_of_le_length (by simp [length_be, hsql]), List.drop_of_length_le (by simp [length_be, hsql])]; simp
+  rw [d1]
+  have e1 : (e ++ ct).take 8 = e := by rw [List.take_append_of_le_length (by omega)]; exact List.take_of_length_le (by omega)
+  have e2 : (e ++ ct).drop 8 = ct := by rw [List.drop_append_of_le_length (by omega), List.drop_of_length_le (by omega)]; simp
+  have e3 : ¬ (e ++ ct).length < 8 := by simp; omega
+  have e4 : ¬ ct.length < P.tagLen := by omega
+  have e5 : ct.length - P.tagLen = content.length := by omega
+  have hne : (e.length == 0) = false := by simp [he]
+  have pn : prefixNonce srcDtlcp k.iv e = k.iv ++ e := by
+    simp only [prefixNonce]
+    have a : srcDtlcp.noncePrefixLen = 4 := rfl
+    have b : srcDtlcp.aeadNonceLen = 12 := rfl
+    rw [a, b, List.take_of_length_le (by omega), List.take_of_length_le (by omega)]
+  have g0 : ([UInt8.ofNat typ, UInt8.ofNat (ver / 256), UInt8.ofNat ver] ++ (sq ++ be 2 (e.length + ct.length)) ++ (e ++ ct)).getD 0 0 = UInt8.ofNat typ := by simp
+  have g1 : ([UInt8.ofNat typ, UInt8.ofNat (ver / 256), UInt8.ofNat ver] ++ (sq ++ be 2 (e.length + ct.length)) ++ (e ++ ct)).getD 1 0 = UInt8.ofNat (ver / 256) := by simp
+  have g2 : ([UInt8.ofNat typ, UInt8.ofNat (ver / 256), UInt8.ofNat ver] ++ (sq ++ be 2 (e.length + ct.length)) ++ (e ++ ct)).getD 2 0 = UInt8.ofNat ver := by simp
+  simp only [e1, e2, e3, e4, e5, if_false, hne, Bool.false_eq_true, pn, len16_eq, g0, g1, g2]
+  have had : sq ++ [UInt8.ofNat typ] ++ [UInt8.ofNat (ver / 256), UInt8.ofNat ver] ++ be 2 content.length
+      = sq ++ be 1 typ ++ be 2 ver ++ be 2 content.length := by
+    rw [List.append_assoc sq (be 1 typ), hb]; simp
+  rw [had, ← hct, L.open_seal]
 
 end Gotlcp.Lemmas.KeyScheduleRecord
